@@ -1,6 +1,13 @@
 /-
-  `compile_yields` (C01.3): see Proofs/MiniVMCompile.lean for the statement's vocabulary.
-  Core Lean only.
+  `compile_yields` (C01.3) — the code emitted for ANY query of the fragment, placed anywhere in
+  the code of a well laid-out program and started on ANY stack, pending forks, registers and
+  call frames that realise the query's closure environment (`EnvRel`), `Yields` exactly the
+  outputs `eval` prescribes and then fails into the pending forks carrying `eval`'s error, if
+  any.  Induction on the fuel of `eval`, then on the query.  Port of the kernel-checked
+  prototype (proto-vm-refinement), extended to the instruction shapes of the real compiler:
+  the call site saves its input in a register, the function prologue `store; store; load`
+  puts the closure into REGISTER 1 of the new frame, lexical lookup by scope id, `opscope`'s
+  outerindex computation, and the read-only register set `P`.  Core Lean only.
 -/
 import Gojq.Proofs.MiniVMCompile
 namespace Gojq.MiniVM
@@ -22,35 +29,36 @@ theorem eval_pipe_of_nd {defs n g ρ a b v} (h : ND (eval defs n g ρ a v).stop)
 
 theorem compile_yields {code defs entry nf} (hfun : FuncsOK code defs entry nf) :
     ∀ (n : Nat) (q : Q) (g : Option Name) (e p : Nat), e ≤ p → Seg code p (compile entry g e p q) → q.Closed nf →
-    ∀ ρ v S F R fr o cp, TopIs fr e (p - e) → scopeOf entry g ≤ e → (q.HasParam → ρ ≠ .none) →
-      EnvRel code entry nf fr (fr.length - 1) ρ g →
+    ∀ ρ v S F R fr o cp (P : Nat → Prop), TopIs fr e → scopeOf entry g ≤ e → (q.HasParam → ρ ≠ .none) →
+      (∀ a, P a → a < base fr + (p - e)) →
+      EnvRel code entry nf P R fr (fr.length - 1) ρ g →
       base fr + (p + (compile entry g e p q).length - e) ≤ o → ND (eval defs n g ρ q v).stop →
-      Yields code (Own (base fr) e p (compile entry g e p q).length) o fr F (p + (compile entry g e p q).length) S
+      Yields code (Own (base fr) e p (compile entry g e p q).length) P o fr F (p + (compile entry g e p q).length) S
         (.run p (.v v :: S) F false none R fr o cp) (eval defs n g ρ q v).outs (eval defs n g ρ q v).stop.toErr := by
   intro n
   induction n with
-  | zero => intro q g e p _ _ _ ρ v S F R fr o cp _ _ _ _ _ hnd; simp [eval, ND] at hnd
+  | zero => intro q g e p _ _ _ ρ v S F R fr o cp P _ _ _ _ _ _ hnd; simp [eval, ND] at hnd
   | succ n ihn =>
     intro q
     cases q with
     | id =>
-      intro g e p _ _ _ ρ v S F R fr o cp _ _ _ _ _ _
+      intro g e p _ _ _ ρ v S F R fr o cp P _ _ _ _ _ _ _
       simp only [compile, eval, List.length_nil, Nat.add_zero, Stop.toErr]
       exact .out (F' := []) ForksOK.nil (.refl _) (Nat.le_refl _) EqOff.refl (fun _ => ⟨rfl, rfl⟩)
         (fun R2 _ => .done (.refl _) EqOff.refl)
     | const c =>
-      intro g e p _ hseg _ ρ v S F R fr o cp _ _ _ _ _ _
+      intro g e p _ hseg _ ρ v S F R fr o cp P _ _ _ _ _ _ _
       simp only [compile, eval, List.length_singleton, Stop.toErr]
       have h0 := Seg.head hseg
       exact .out (F' := []) (R1 := R) (o1 := o) (cp := cp) ForksOK.nil (Steps.one (by simp [step, h0]))
         (Nat.le_refl _) EqOff.refl (fun _ => ⟨rfl, rfl⟩) (fun R2 _ => .done (.refl _) EqOff.refl)
     | empty =>
-      intro g e p _ hseg _ ρ v S F R fr o cp _ _ _ _ _ _
+      intro g e p _ hseg _ ρ v S F R fr o cp P _ _ _ _ _ _ _
       simp only [compile, eval, Stop.toErr]
       have h0 := Seg.head hseg
       exact .done (Steps.one (by simp [step, h0])) EqOff.refl
     | iter =>
-      intro g e p _ hseg _ ρ v S F R fr o cp _ _ _ _ _ _
+      intro g e p _ hseg _ ρ v S F R fr o cp P _ _ _ _ _ _ _
       have h0 : code[p]? = some .iter := Seg.head hseg
       simp only [compile, List.length_singleton]
       cases hit : iterItems v with
@@ -62,7 +70,7 @@ theorem compile_yields {code defs entry nf} (hfun : FuncsOK code defs entry nf) 
         have key : ∀ (ys : List V) (c : Cfg),
             (∃ R cp, (∃ x, iterItems x = some ys ∧ c = .run p (.v x :: S) F false none R fr o cp) ∨
              (ys ≠ [] ∧ c = .run p (.rest ys :: S) F true none R fr o cp)) →
-            Yields code (Own (base fr) e p 1) o fr F (p+1) S c ys none := by
+            Yields code (Own (base fr) e p 1) P o fr F (p+1) S c ys none := by
           intro ys
           induction ys with
           | nil =>
@@ -96,7 +104,7 @@ theorem compile_yields {code defs entry nf} (hfun : FuncsOK code defs entry nf) 
                 exact ih _ ⟨R2, 0, Or.inr ⟨by simp, rfl⟩⟩
         exact key xs _ ⟨R, cp, Or.inl ⟨v, hit, rfl⟩⟩
     | pipe a b =>
-      intro g e p hep hseg hcl ρ v S F R fr o cp htop hge hpar henv hoff hnd
+      intro g e p hep hseg hcl ρ v S F R fr o cp P htop hge hpar hP henv hoff hnd
       simp only [compile] at hseg hoff ⊢
       simp only [Q.Closed] at hcl
       simp only [Q.HasParam] at hpar
@@ -105,21 +113,22 @@ theorem compile_yields {code defs entry nf} (hfun : FuncsOK code defs entry nf) 
       have hnda : ND (eval defs n g ρ a v).stop := eval_pipe_nd_left hnd
       rw [eval_pipe_of_nd hnda] at hnd ⊢
       simp only [List.length_append] at hoff ⊢
-      have ya := ihn a g e p hep hsa hcl.1 ρ v S F R fr o cp htop hge (fun h => hpar (Or.inl h)) henv (by omega) hnda
-      have := Yields.bind (f := eval defs n g ρ b)
+      have ya := ihn a g e p hep hsa hcl.1 ρ v S F R fr o cp P htop hge (fun h => hpar (Or.inl h)) hP henv (by omega) hnda
+      have := Yields.bind (f := eval defs n g ρ b) (R0 := R)
         (O := Own (base fr) e p ((compile entry g e p a).length + (compile entry g e (p + (compile entry g e p a).length) b).length))
         (p' := p + (compile entry g e p a).length + (compile entry g e (p + (compile entry g e p a).length) b).length)
         (by intro i h; obtain ⟨j, h1, h2, h3⟩ := h; exact ⟨j, by omega, by omega, h3⟩)
         (by intro i h; obtain ⟨j, h1, h2, h3⟩ := h; exact ⟨j, by omega, by omega, h3⟩)
         (by intro i h h'; obtain ⟨j, h1, h2, h3⟩ := h; obtain ⟨k, k1, k2, k3⟩ := h'; omega)
         (by intro i h; obtain ⟨j, h1, h2, h3⟩ := h; omega)
+        (by intro i h; have := hP i h; refine ⟨by omega, ?_⟩; intro h'; obtain ⟨j, h1, h2, h3⟩ := h'; omega)
         ya
-        (fun x G R o1 cp ho1 hx => ihn b g e _ (by omega) hsb hcl.2 ρ x S G R fr o1 cp (htop.mono (by omega)) hge
-          (fun h => hpar (Or.inr h)) henv (by omega) hx)
-        (eval defs n g ρ a v).stop rfl hnd
+        (fun x G R' o1 cp ho1 hR' hx => ihn b g e _ (by omega) hsb hcl.2 ρ x S G R' fr o1 cp P htop hge
+          (fun h => hpar (Or.inr h)) (fun a h => by have := hP a h; omega) (henv.congr hR') (by omega) hx)
+        (eval defs n g ρ a v).stop rfl EqOn.refl hnd
       simpa [Nat.add_assoc] using this
     | comma a b =>
-      intro g e p hep hseg hcl ρ v S F R fr o cp htop hge hpar henv hoff hnd
+      intro g e p hep hseg hcl ρ v S F R fr o cp P htop hge hpar hP henv hoff hnd
       simp only [compile] at hseg hoff ⊢
       simp only [Q.Closed] at hcl
       simp only [Q.HasParam] at hpar
@@ -154,10 +163,10 @@ theorem compile_yields {code defs entry nf} (hfun : FuncsOK code defs entry nf) 
         generalize eval defs n g ρ a v = ra at hnd
         rcases ra with ⟨oa, sa⟩
         cases sa <;> simp_all [ND]
-      have ya := ihn a g e (p+1) (by omega) (hca ▸ hsa) hcl.1 ρ v S (fk :: F) R fr o cp (htop.mono (by omega)) hge
-        (fun h => hpar (Or.inl h)) henv (by rw [hca]; omega) hnda
+      have ya := ihn a g e (p+1) (by omega) (hca ▸ hsa) hcl.1 ρ v S (fk :: F) R fr o cp P htop hge
+        (fun h => hpar (Or.inl h)) (fun a h => by have := hP a h; omega) henv (by rw [hca]; omega) hnda
       rw [hca] at ya
-      have ya' : Yields code (Own (base fr) e (p+1) ca.length) o fr ([fk] ++ F) (pb + cb.length) S
+      have ya' : Yields code (Own (base fr) e (p+1) ca.length) P o fr ([fk] ++ F) (pb + cb.length) S
           (.run (p+1) (.v v :: S) (fk :: F) false none R fr o cp) (eval defs n g ρ a v).outs (eval defs n g ρ a v).stop.toErr :=
         Yields.exit_steps (fun w G R o1 cp => ⟨cp, Steps.one (by simp [step, hjump])⟩) ya
       have start : Steps code (.run p (.v v :: S) F false none R fr o cp) (.run (p+1) (.v v :: S) (fk :: F) false none R fr o cp) :=
@@ -167,31 +176,37 @@ theorem compile_yields {code defs entry nf} (hfun : FuncsOK code defs entry nf) 
         intro i h; obtain ⟨j, h1, h2, h3⟩ := h; exact Or.inl ⟨j, by omega, by omega, h3⟩
       have hOb : ∀ i, Own (base fr) e pb cb.length i → Own (base fr) e p (1 + ca.length + 1 + cb.length) i ∨ (o ≤ i ∧ i < o) := by
         intro i h; obtain ⟨j, h1, h2, h3⟩ := h; exact Or.inl ⟨j, by omega, by omega, h3⟩
+      have hPP : ∀ a, P a → Own (base fr) e p (1 + ca.length + 1 + cb.length) a ∨ P a ∨ (o ≤ a ∧ a < o) :=
+        fun a h => Or.inr (Or.inl h)
       generalize hra : eval defs n g ρ a v = ra at hnd ya' ⊢
       rcases ra with ⟨oa, sa⟩
       cases sa with
       | diverge => simp [ND] at hnd
       | err ee =>
         simp only [Stop.toErr] at ya' ⊢
-        exact Yields.rebase_err ya' hfk hOa (Nat.le_refl _)
+        exact Yields.rebase_err ya' hfk hOa hPP (Nat.le_refl _)
       | done =>
         simp only [Stop.toErr] at ya' hnd ⊢
-        have yb := fun R' => ihn b g e pb (by omega) (hcb ▸ hsb) hcl.2 ρ v S F R' fr o 0 (htop.mono (by omega)) hge
-          (fun h => hpar (Or.inr h)) henv (by rw [hcb]; omega) hnd
+        have yb := fun R' (hR' : EqOn P R R') => ihn b g e pb (by omega) (hcb ▸ hsb) hcl.2 ρ v S F R' fr o 0 P htop hge
+          (fun h => hpar (Or.inr h)) (fun a h => by have := hP a h; omega) (henv.congr hR') (by rw [hcb]; omega) hnd
         rw [hcb] at yb
-        refine Yields.rebase (K := fun _ => False) ya' hfk hOa (Nat.le_refl _) (fun _ h => h.elim) (fun _ h => h.elim)
-          (fun h => by simp at h) ?_
-        intro R' _
-        refine Yields.steps_left (c' := .run pb (.v v :: S) F false none R' fr o 0) ?_ EqOff.refl ((yb R').mono hOb (Nat.le_refl _))
+        refine Yields.rebase (K := P) ya' hfk hOa hPP (Nat.le_refl _) hPP ?_ (fun h => by simp at h) ?_
+        · intro a h hw
+          have := hP a h
+          rcases hw with hw | hw
+          · obtain ⟨j, j1, j2, j3⟩ := hw; omega
+          · omega
+        intro R' hR'
+        refine Yields.steps_left (c' := .run pb (.v v :: S) F false none R' fr o 0) ?_ EqOff.refl
+          ((yb R' (by simpa using hR')).mono hOb hPP (Nat.le_refl _))
         refine .head (c' := .run p (.v v :: S) F true none R' fr o 0) (by simp [step, fk]) ?_
         exact Steps.one (by simp [step, hfork])
     | arr q =>
-      intro g e p hep hseg hcl ρ v S F R fr o cp htop hge hpar henv hoff hnd
+      intro g e p hep hseg hcl ρ v S F R fr o cp P htop hge hpar hP henv hoff hnd
       simp only [compile] at hseg hoff ⊢
       simp only [Q.Closed] at hcl
       simp only [Q.HasParam] at hpar
-      obtain ⟨ft, hres, hbase, hargc, _, _⟩ := htop.resolve
-      have hslot : ¬ (1 ≤ p - e ∧ p - e ≤ ft.argc) := by omega
+      obtain ⟨ft, hres, hbase, _, _⟩ := htop.resolve
       generalize hcq : compile entry g e (p+3) q = cq at hseg hoff ⊢
       have h0 : code[p]? = some (.push (.arr [])) := by have := hseg 0 (by simp); simpa using this
       have h1 : code[p+1]? = some (.store e (p - e)) := by have := hseg 1 (by simp); simpa using this
@@ -212,7 +227,12 @@ theorem compile_yields {code defs entry nf} (hfun : FuncsOK code defs entry nf) 
       rw [hlen] at hoff ⊢
       let fk : Fork := ⟨p+2, .v v :: S, fr, o⟩
       let r := ft.base + (p - e)
-      let R0 := R.set r (.arr [])
+      let R0 := R.set r (.v (.arr []))
+      have hrP : ¬ P r := by intro h; have := hP _ h; simp only [r] at this; omega
+      have hRR0 : EqOn P R R0 := by
+        intro a ha; simp only [R0, Regs.set]; split
+        · rename_i h; subst h; exact absurd ha hrP
+        · rfl
       have start : Steps code (.run p (.v v :: S) F false none R fr o cp) (.run (p+3) (.v v :: S) (fk :: F) false none R0 fr o cp) := by
         refine .head (c' := .run (p+1) (.v (.arr []) :: .v v :: S) F false none R fr o cp) (by simp [step, h0]) ?_
         refine .head (c' := .run (p+2) (.v v :: S) F false none R0 fr o cp) (by simp [step, h1, hres, R0, r]) ?_
@@ -222,13 +242,13 @@ theorem compile_yields {code defs entry nf} (hfun : FuncsOK code defs entry nf) 
         generalize eval defs n g ρ q v = rq at hnd
         rcases rq with ⟨oq, sq⟩
         cases sq <;> simp_all [ND]
-      have yq := ihn q g e (p+3) (by omega) (hcq ▸ hsq) hcl ρ v S (fk :: F) R0 fr o cp (htop.mono (by omega)) hge hpar henv
-        (by rw [hcq]; omega) hndq
+      have yq := ihn q g e (p+3) (by omega) (hcq ▸ hsq) hcl ρ v S (fk :: F) R0 fr o cp P htop hge hpar
+        (fun a h => by have := hP a h; omega) (henv.congr hRR0) (by rw [hcq]; omega) hndq
       rw [hcq] at yq
       have hnot : ¬ Own (base fr) e (p+3) cq.length r := by
         intro h; obtain ⟨j, j1, j2, j3⟩ := h; simp only [r] at j3; omega
       have hrlt : r < o := by simp only [r]; omega
-      obtain ⟨R', hs, hacc, hfr⟩ := collect hres hnot hrlt t0 t1 yq [] (by simp [R0, Regs.set, r])
+      obtain ⟨R', hs, hacc, hfr⟩ := collect hres hnot hrP hrlt t0 t1 yq [] (by simp [R0, Regs.set, r])
       have hfr' : EqOff (Wr (Own (base fr) e p (3 + cq.length + 4)) o) R R' := by
         intro i hi
         have hne : i ≠ r := by
@@ -260,11 +280,10 @@ theorem compile_yields {code defs entry nf} (hfun : FuncsOK code defs entry nf) 
         have : p + (3 + cq.length + 4) = p + 3 + cq.length + 3 + 1 := by omega
         rw [this]
         refine Steps.one ?_
-        have hacc' : R' (ft.base + (p - e)) = .arr oq := by simpa using hacc
-        rw [step_load_val t3 hres hslot, hacc']
-        rfl
+        have hacc' : R' (ft.base + (p - e)) = .v (.arr oq) := by simpa using hacc
+        simp [step, t3, hres, hacc']
     | param =>
-      intro g e p hep hseg _ ρ v S F R fr o cp htop hge hpar henv hoff hnd
+      intro g e p hep hseg _ ρ v S F R fr o cp P htop hge hpar hP henv hoff hnd
       simp only [compile] at hseg hoff ⊢
       have h0 : code[p]? = some (.load (scopeOf entry g) 1) := by have := hseg 0 (by simp); simpa using this
       have h1 : code[p+1]? = some .callpc := by have := hseg 1 (by simp); simpa using this
@@ -272,39 +291,39 @@ theorem compile_yields {code defs entry nf} (hfun : FuncsOK code defs entry nf) 
       cases ρ with
       | none => exact absurd rfl (hpar (by simp [Q.HasParam]))
       | mk h q' ρ' =>
-        obtain ⟨f, dg, pcL, d', fd, hr, hp, ha, hdd, hfd, hfid, hl, hcl', hpar', hrec⟩ := EnvRel.inv_mk henv
+        obtain ⟨f, dg, pcL, d', fd, hr, hp, _, hdd, hfd, hfid, hl, hcl', hpar', hrec⟩ := EnvRel.inv_mk henv
         simp only [eval] at hnd ⊢
         obtain ⟨l0, l1, l2, l3⟩ := hl
         let lq := (compile entry h pcL (pcL+1) q').length
-        let lam : Frame := ⟨pcL, p+1, o, F.length, some d', 0, none⟩
+        let lam : Frame := ⟨pcL, p+1, o, F.length, some d'⟩
         have hdg := resolve_lt _ _ _ _ _ hr
         have hfne : fd.id ≠ pcL := by omega
         have start : Steps code (.run p (.v v :: S) F false none R fr o cp)
             (.run (pcL + 1) (.v v :: S) F false none R (lam :: fr) (o + (lq + 1)) (p+1, some d')) := by
           refine .head (c' := .run (p+1) (.clo pcL d' :: .v v :: S) F false none R fr o cp)
-            (step_load_param h0 hr (by omega) hp) ?_
+            (by simp [step, h0, hr, hp]) ?_
           refine .head (c' := .run pcL (.v v :: S) F false none R fr o (p+1, some d')) (by simp [step, h1]) ?_
           refine Steps.one ?_
           rw [step_scope l0 rfl hfd, if_neg hfne]
-        have henv' : EnvRel code entry nf (lam :: fr) ((lam :: fr).length - 1) ρ' h := by
+        have henv' : EnvRel code entry nf P R (lam :: fr) ((lam :: fr).length - 1) ρ' h := by
           have := hrec.lam lam (by omega) (by simp only [lam]; omega) rfl
           simpa using this
-        have yb := ihn q' h pcL (pcL+1) (by omega) l1 hcl' ρ' v S F R (lam :: fr) (o + (lq + 1)) (p+1, some d')
-          ⟨lam, fr, rfl, rfl, by simp only [lam]; omega⟩ (by omega) hpar' henv' (by simp only [lam, base, lq]; omega) hnd
-        have yb' : Yields code (Own o pcL (pcL + 1) lq) (o + (lq + 1)) (lam :: fr) F (pcL + 1 + lq) S
+        have yb := ihn q' h pcL (pcL+1) (by omega) l1 hcl' ρ' v S F R (lam :: fr) (o + (lq + 1)) (p+1, some d') P
+          ⟨lam, fr, rfl, rfl⟩ (by omega) hpar' (fun a ha => by have := hP a ha; simp only [lam, base]; omega) henv'
+          (by simp only [lam, base, lq]; omega) hnd
+        have yb' : Yields code (Own o pcL (pcL + 1) lq) P (o + (lq + 1)) (lam :: fr) F (pcL + 1 + lq) S
             (.run (pcL + 1) (.v v :: S) F false none R (lam :: fr) (o + (lq + 1)) (p+1, some d'))
             (eval defs n h ρ' q' v).outs (eval defs n h ρ' q' v).stop.toErr := yb
-        have yc := call_of_body (o := o) (fm := lam) (n := lq + 1) (Ob := Own o pcL (pcL + 1) lq) htop.ne_nil rfl rfl
-          (by intro a h; obtain ⟨j, j1, j2, j3⟩ := h; omega) l2 yb'
-        exact Yields.steps_left start EqOff.refl (yc.mono (fun _ h => h.elim) (Nat.le_refl _))
+        have yc := call_of_body (o := o) (fm := lam) (n := lq + 1) (Ob := Own o pcL (pcL + 1) lq) (P := P) (P' := P) htop.ne_nil rfl rfl
+          (by intro a h; obtain ⟨j, j1, j2, j3⟩ := h; omega) (fun a h => Or.inl h) l2 yb'
+        exact Yields.steps_left start EqOff.refl (yc.mono (fun _ h => h.elim) (fun a h => Or.inr (Or.inl h)) (Nat.le_refl _))
     | call1 f a =>
-      intro g e p hep hseg hcl ρ v S F R fr o cp htop hge hpar henv hoff hnd
+      intro g e p hep hseg hcl ρ v S F R fr o cp P htop hge hpar hP henv hoff hnd
       simp only [compile] at hseg hoff ⊢
       simp only [Q.Closed] at hcl
       simp only [Q.HasParam] at hpar
       obtain ⟨hf, hcla⟩ := hcl
-      obtain ⟨ft, hres, hbase, hargc, hftop, hftid⟩ := htop.resolve
-      have hslot : ¬ (1 ≤ p - e ∧ p - e ≤ ft.argc) := by omega
+      obtain ⟨ft, hres, hbase, hftop, hftid⟩ := htop.resolve
       have hne := htop.ne_nil
       have htd := topDepth_of_ne_nil hne
       generalize hca : compile entry g (p+2) (p+3) a = ca at hseg hoff ⊢
@@ -335,15 +354,16 @@ theorem compile_yields {code defs entry nf} (hfun : FuncsOK code defs entry nf) 
       simp only [eval] at hnd ⊢
       let lb := (compile entry (some f) (entry f) (entry f + 4) (defs f)).length
       let r := ft.base + (p - e)
-      let R0 := R.set r v
-      let R1 := R0.set o v
+      let R0 := R.set r (.v v)
+      let R1 := R0.set o (.v v)
+      let R2 := R1.set (o + 1) (.clo (p+2) (fr.length - 1))
       -- the `outerindex` the real VM computes for the callee's frame (never consulted in this fragment)
       let oo : Option Nat := if ft.id = entry f then ft.outer else some (fr.length - 1)
-      let cal0 : Frame := ⟨entry f, p + 3 + ca.length + 3, o, F.length, oo, 1, none⟩
-      let cal : Frame := ⟨entry f, p + 3 + ca.length + 3, o, F.length, oo, 1, some (p+2, fr.length - 1)⟩
+      let cal : Frame := ⟨entry f, p + 3 + ca.length + 3, o, F.length, oo⟩
       have hlenpos : 0 < fr.length := by cases fr <;> simp_all
+      have hrc : resolve (entry f) (cal :: fr) ((cal :: fr).length - 1) = some (cal, fr.length) := by simp [resolve, cal]
       have start : Steps code (.run p (.v v :: S) F false none R fr o cp)
-          (.run (entry f + 4) (.v v :: S) F false none R1 (cal :: fr) (o + (lb + 4)) (p + 3 + ca.length + 3, some (fr.length - 1))) := by
+          (.run (entry f + 4) (.v v :: S) F false none R2 (cal :: fr) (o + (lb + 4)) (p + 3 + ca.length + 3, some (fr.length - 1))) := by
         refine .head (c' := .run (p+1) S F false none R0 fr o cp) (by simp [step, c0, hres, R0, r]) ?_
         refine .head (c' := .run (p + 4 + ca.length) S F false none R0 fr o cp) (by simp [step, c1]) ?_
         have e4 : p + 4 + ca.length = p + 3 + ca.length + 1 := by omega
@@ -351,45 +371,63 @@ theorem compile_yields {code defs entry nf} (hfun : FuncsOK code defs entry nf) 
         refine .head (c' := .run (p + 3 + ca.length + 2) (.clo (p+2) (fr.length - 1) :: S) F false none R0 fr o cp)
           (by simp [step, t1, htd]) ?_
         refine .head (c' := .run (p + 3 + ca.length + 3) (.v v :: .clo (p+2) (fr.length - 1) :: S) F false none R0 fr o cp)
-          (by rw [step_load_val t2 hres hslot]; simp [R0, r, Regs.set]) ?_
+          (by simp [step, t2, hres, R0, r, Regs.set]) ?_
         refine .head (c' := .run (entry f) (.v v :: .clo (p+2) (fr.length - 1) :: S) F false none R0 fr o
           (p + 3 + ca.length + 3, some (fr.length - 1))) (by simp [step, t3, htd]) ?_
-        refine .head (c' := .run (entry f + 1) (.v v :: .clo (p+2) (fr.length - 1) :: S) F false none R0 (cal0 :: fr) (o + (lb + 4))
+        refine .head (c' := .run (entry f + 1) (.v v :: .clo (p+2) (fr.length - 1) :: S) F false none R0 (cal :: fr) (o + (lb + 4))
           (p + 3 + ca.length + 3, some (fr.length - 1))) (by rw [step_scope (hfun.scope f hf) rfl hftop]) ?_
-        refine .head (c' := .run (entry f + 2) (.clo (p+2) (fr.length - 1) :: S) F false none R1 (cal0 :: fr) (o + (lb + 4))
-          (p + 3 + ca.length + 3, some (fr.length - 1))) (by simp [step, hfun.st0 f hf, resolve, cal0, R1]) ?_
-        refine .head (c' := .run (entry f + 3) S F false none R1 (cal :: fr) (o + (lb + 4))
-          (p + 3 + ca.length + 3, some (fr.length - 1)))
-          (by rw [step_store_param (hfun.st1 f hf) (by simp [cal0])]) ?_
+        refine .head (c' := .run (entry f + 2) (.clo (p+2) (fr.length - 1) :: S) F false none R1 (cal :: fr) (o + (lb + 4))
+          (p + 3 + ca.length + 3, some (fr.length - 1))) (by rw [step_store (hfun.st0 f hf) hrc]; rfl) ?_
+        refine .head (c' := .run (entry f + 3) S F false none R2 (cal :: fr) (o + (lb + 4))
+          (p + 3 + ca.length + 3, some (fr.length - 1))) (by rw [step_store (hfun.st1 f hf) hrc]) ?_
         refine Steps.one ?_
-        have hrc : resolve (entry f) (cal :: fr) ((cal :: fr).length - 1) = some (cal, fr.length) := by simp [resolve, cal]
-        rw [step_load_val (hfun.ld0 f hf) hrc (by omega)]
-        simp [cal, R1, Regs.set]
-      have henv' : EnvRel code entry nf (cal :: fr) ((cal :: fr).length - 1) (.mk g a ρ) (some f) := by
+        rw [step_load (hfun.ld0 f hf) hrc]
+        simp [cal, R2, R1, Regs.set]
+      let P' : Nat → Prop := fun x => P x ∨ x = o + 1
+      have hRR2 : EqOn P R R2 := by
+        intro x hx
+        have := hP x hx
+        have h1 : x ≠ r := by simp only [r]; omega
+        have h2 : x ≠ o := by omega
+        have h3 : x ≠ o + 1 := by omega
+        simp [R2, R1, R0, Regs.set, h1, h2, h3]
+      have henv' : EnvRel code entry nf P' R2 (cal :: fr) ((cal :: fr).length - 1) (.mk g a ρ) (some f) := by
         have hres' : resolve (scopeOf entry (some f)) (cal :: fr) fr.length = some (cal, fr.length) := by
           simp [resolve, cal, scopeOf]
         have hfa : frameAt (cal :: fr) (fr.length - 1) = some ft := by
           rw [frameAt_push _ _ _ (by omega)]; exact hftop
-        have := EnvRel.mk (code := code) (entry := entry) (nf := nf) hres' (by simp [cal]) (by simp [cal]) (by omega)
-          hfa (by omega) hlam hcla hpar (henv.push cal (by omega))
+        have := EnvRel.mk (code := code) (entry := entry) (nf := nf) (P := P') (R := R2) hres'
+          (by simp [cal, R2, Regs.set]) (Or.inr (by simp [cal])) (by omega)
+          hfa (by omega) hlam hcla hpar (((henv.congr hRR2).monoP (fun x hx => Or.inl hx)).push cal (by omega))
         simpa using this
-      have yb := ihn (defs f) (some f) (entry f) (entry f + 4) (by omega) (hfun.body f hf) (hfun.closed f hf) (.mk g a ρ) v S F R1
-        (cal :: fr) (o + (lb + 4)) (p + 3 + ca.length + 3, some (fr.length - 1))
-        ⟨cal, fr, rfl, rfl, by simp only [cal]; omega⟩ (Nat.le_refl _) (fun _ => by simp) henv'
-        (by simp only [cal, base, lb]; omega) hnd
-      have yb' : Yields code (Own o (entry f) (entry f + 4) lb) (o + (lb + 4)) (cal :: fr) F (entry f + 4 + lb) S
-          (.run (entry f + 4) (.v v :: S) F false none R1 (cal :: fr) (o + (lb + 4)) (p + 3 + ca.length + 3, some (fr.length - 1)))
+      have yb := ihn (defs f) (some f) (entry f) (entry f + 4) (by omega) (hfun.body f hf) (hfun.closed f hf) (.mk g a ρ) v S F R2
+        (cal :: fr) (o + (lb + 4)) (p + 3 + ca.length + 3, some (fr.length - 1)) P'
+        ⟨cal, fr, rfl, rfl⟩ (Nat.le_refl _) (fun _ => by simp)
+        (fun x hx => by
+          simp only [cal, base]
+          rcases hx with hx | hx
+          · have := hP x hx; omega
+          · omega)
+        henv' (by simp only [cal, base, lb]; omega) hnd
+      have yb' : Yields code (Own o (entry f) (entry f + 4) lb) P' (o + (lb + 4)) (cal :: fr) F (entry f + 4 + lb) S
+          (.run (entry f + 4) (.v v :: S) F false none R2 (cal :: fr) (o + (lb + 4)) (p + 3 + ca.length + 3, some (fr.length - 1)))
           (eval defs n (some f) (.mk g a ρ) (defs f) v).outs (eval defs n (some f) (.mk g a ρ) (defs f) v).stop.toErr := yb
-      have yc := call_of_body (o := o) (fm := cal) (n := lb + 4) (Ob := Own o (entry f) (entry f + 4) lb) hne rfl rfl
-        (by intro a h; obtain ⟨j, j1, j2, j3⟩ := h; omega) (hfun.ret f hf) yb'
+      have yc := call_of_body (o := o) (fm := cal) (n := lb + 4) (Ob := Own o (entry f) (entry f + 4) lb) (P := P) (P' := P') hne rfl rfl
+        (by intro a h; obtain ⟨j, j1, j2, j3⟩ := h; omega)
+        (by intro x hx; rcases hx with hx | hx
+            · exact Or.inl hx
+            · exact Or.inr (by omega))
+        (hfun.ret f hf) yb'
       have hexit : cal.ret + 1 = p + (3 + ca.length + 4) := by simp only [cal]; omega
       rw [hexit] at yc
-      refine Yields.steps_left start ?_ (yc.mono (fun _ h => h.elim) (Nat.le_refl _))
+      refine Yields.steps_left start ?_ (yc.mono (fun _ h => h.elim) (fun a h => Or.inr (Or.inl h)) (Nat.le_refl _))
       intro i hi
       have hne1 : i ≠ r := by
         intro h; apply hi; left; exact ⟨p, by omega, by omega, by simp [h, r, hbase]⟩
       have hne2 : i ≠ o := by
         intro h; apply hi; right; omega
-      simp [R1, R0, Regs.set, hne1, hne2]
+      have hne3 : i ≠ o + 1 := by
+        intro h; apply hi; right; omega
+      simp [R2, R1, R0, Regs.set, hne1, hne2, hne3]
 
 end Gojq.MiniVM
